@@ -75,6 +75,10 @@ func checkC15(c *Ctx, r *Report) {
 						if nt, ok := deref(sc.Signature.Recv().Type()).(*types.Named); !ok || nt.Obj().Pkg() == nil || nt.Obj().Pkg().Path() != "bytes" || nt.Obj().Name() != "Buffer" {
 							continue
 						}
+						// reading how much is buffered consumes nothing
+						if nm := sc.Name(); nm == "Len" || nm == "Cap" || nm == "Available" || nm == "String" {
+							continue
+						}
 						if fa, ok := ci.Common().Args[0].(*ssa.FieldAddr); ok && types.Identical(deref(fa.X.Type()), rrT) {
 							bad++
 							r.fail("R15.9", fnID(m), "the reassembly buffer is touched ("+sc.Name()+") by a method outside the path of ReceiveRead", c.pos(in.Pos()), "", "buffer-side-door:"+sc.Name())
